@@ -172,6 +172,7 @@ pub struct Report {
     pub extras: Map<String, Value>,
     pub harness_errors: Vec<String>,
     pub exhaustive: Option<bool>,
+    sig_counts: BTreeMap<String, u64>,
     start_ns: u64,
 }
 
@@ -195,6 +196,7 @@ impl Report {
             extras: Map::new(),
             harness_errors: Vec::new(),
             exhaustive: None,
+            sig_counts: BTreeMap::new(),
             start_ns: clock::real_now_ns(),
         }
     }
@@ -224,7 +226,10 @@ impl Report {
             }
         }
         for v in o.violations {
-            if self.violations.len() < 10_000 {
+            // keep the first few witnesses of every distinct signature, count the rest
+            let c = self.sig_counts.entry(v.signature()).or_insert(0);
+            *c += 1;
+            if *c <= 3 {
                 self.violations.push(v);
             }
         }
@@ -274,10 +279,11 @@ impl Report {
         let mut new_sigs = Vec::new();
         let mut known_sigs = Vec::new();
         for (sig, vs) in &by_sig {
+            let n = self.sig_counts.get(sig).copied().unwrap_or(vs.len() as u64) as usize;
             if let Some(what) = known.open(&self.property, sig) {
-                known_sigs.push((sig.clone(), what, vs.len()));
+                known_sigs.push((sig.clone(), what, n));
             } else {
-                new_sigs.push((sig.clone(), vs[0].clone(), vs.len()));
+                new_sigs.push((sig.clone(), vs[0].clone(), n));
             }
         }
         let missing: Vec<&str> = self
